@@ -1,10 +1,10 @@
 #!/usr/bin/env bash
 # Re-evaluate every seeded change with the committed harness (all 20 checks, quick tier, seed 1), 4 at a time.
-# Logs go to /tmp/seed-reeval/<id>.log (development aid; results are folded into seeded/<id>/meta.json by tools/fold_reeval.py)
+# TARGET_ONLY=1: only the check of the property the change was written against. Logs go to /tmp/seed-reeval/<id>.log (development aid; results are folded into seeded/<id>/meta.json by tools/fold_reeval.py)
 cd "$(dirname "$0")/.."
 mkdir -p /tmp/seed-reeval
 ls seeded | grep -E '^C[0-9]+-[A-Z]$' | awk '{print NR%4, $0}' | while read slot id; do echo "$slot $id"; done > /tmp/seed-reeval/plan.txt
 for slot in 0 1 2 3; do
-  ( grep "^$slot " /tmp/seed-reeval/plan.txt | while read s id; do SLOT=re$slot tools/try_mutant.sh seeded/$id/patch.diff ${CHECKS:-} > /tmp/seed-reeval/$id.log 2>&1; done ) &
+  ( grep "^$slot " /tmp/seed-reeval/plan.txt | while read s id; do if [ -n "${TARGET_ONLY:-}" ]; then C="${id%%-*}"; else C="${CHECKS:-}"; fi; [ -s /tmp/seed-reeval/$id.log ] && [ -z "${FORCE:-}" ] && continue; SLOT=re$slot tools/try_mutant.sh seeded/$id/patch.diff $C > /tmp/seed-reeval/$id.log 2>&1; done ) &
 done
 wait
